@@ -13,6 +13,9 @@ import (
 
 	"github.com/antonmedv/expr"
 	"github.com/antonmedv/expr/ast"
+	"github.com/antonmedv/expr/checker"
+	"github.com/antonmedv/expr/conf"
+	"github.com/antonmedv/expr/optimizer"
 	"github.com/antonmedv/expr/parser"
 )
 
@@ -25,6 +28,7 @@ type WalkCase struct {
 	Patched bool     `json:"patched"`
 	Cbp     bool     `json:"cbp"`
 	Envs    []EnvAsg `json:"envs"`
+	OptRoot string   `json:"optroot,omitempty"` // the kind of the root after the optimizer's passes (Optimizer.tla)
 }
 
 type walkRec struct {
@@ -64,6 +68,10 @@ func (r *replayer) walkCase(c WalkCase) {
 		r.fail(Failure{Why: "parse", Src: c.Src, Mode: "walk", Got: &Got{Stage: "compile", Err: err.Error()}})
 		return
 	}
+	if c.OptRoot != "" && len(c.Walk) == 0 {
+		r.optRoot(c)
+		return
+	}
 	w := &walkRec{seen: map[ast.Node]int{}}
 	pmsg, hang := guarded(func() { ast.Walk(&tree.Node, w) })
 	r.sum.Executions++
@@ -93,8 +101,16 @@ func (r *replayer) walkCase(c WalkCase) {
 	if c.Patched {
 		lg := &Log{}
 		for _, m := range r.modes {
+			plainBefore, cb := CompileMode(c.Src, m) // the same source, no visitor, before the patching compilation
 			pp, cg := CompileMode(c.Src, m, expr.Patch(oneToTwo{}))
 			pq, cq := CompileMode(c.Psrc, m)
+			// ... and after it: a replacement made in one compilation must not reach another one
+			if plainAfter, ca := CompileMode(c.Src, m); cb == nil && ca == nil && !sameProgram(plainBefore, plainAfter) {
+				r.fail(Failure{Why: "patch-leaks-into-another-compilation", Src: c.Src, Mode: m.String(),
+					Tags: []string{"before=" + toJSON(AbsProg(plainBefore)), "after=" + toJSON(AbsProg(plainAfter))}})
+			} else if (cb == nil) != (ca == nil) {
+				r.fail(Failure{Why: "patch-leaks-into-another-compilation", Src: c.Src, Mode: m.String()})
+			}
 			if (cg == nil) != (cq == nil) {
 				g := cg
 				if g == nil {
@@ -131,5 +147,37 @@ func (r *replayer) walkCase(c WalkCase) {
 		r.sum.Nontrivial++
 	}
 	c.Envs = nil
+	r.sample(c)
+}
+
+func (r *replayer) optRoot(c WalkCase) {
+	// the root node replaced by the optimizer's own visitors: the tree after optimizer.Optimize has the
+	// root kind the specification of the passes (Optimizer.tla) gives it
+	if c.OptRoot != "" {
+		if t2, err := parser.Parse(c.Src); err == nil {
+			cfg := conf.New(*NewEnv(nil))
+			var oerr error
+			pmsg, hang := guarded(func() {
+				if _, cerr := checker.Check(t2, cfg); cerr != nil {
+					oerr = cerr
+					return
+				}
+				oerr = optimizer.Optimize(&t2.Node, cfg)
+			})
+			r.sum.Executions++
+			if pmsg == "" && !hang && oerr == nil {
+				got := "?"
+				if o, ok := projNode(t2.Node).(obj); ok {
+					got, _ = o["k"].(string)
+				}
+				if got != c.OptRoot {
+					r.fail(Failure{Why: "optimizer-root-replacement-lost", Src: c.Src, Mode: "optimize",
+						Tags: []string{"the passes yield a root of kind " + c.OptRoot + ", the optimized tree has " + got}})
+				}
+				r.sum.Stats["optimized roots compared"]++
+			}
+		}
+	}
+	r.sum.Nontrivial++
 	r.sample(c)
 }
